@@ -227,6 +227,9 @@ func (rd *renderer) expr(e *Expr) {
 	switch e.K {
 	case "lit":
 		w.s(e.Text)
+	case "sfield": // static field access  Type.FIELD
+		rd.ref(e.Recv)
+		w.s(e.Recv + "." + e.Text)
 	case "var":
 		w.s(e.Text)
 	case "call":
